@@ -185,3 +185,29 @@ def load(config="default", repo=REPO):
             if n < BODY_FLOORS[c]:
                 raise FactError("crate %s: %d MIR bodies < floor %d" % (c, n, BODY_FLOORS[c]))
     return crates, th, cached
+
+
+
+def fixture_facts():
+    """facts of /verif/fixtures/lib.rs (positive controls), compiled with the driver directly"""
+    src = os.path.join(VERIF, "fixtures", "lib.rs")
+    with open(src, "rb") as f:
+        h = hashlib.sha256(f.read())
+    with open(os.path.join(VERIF, "driver", "src", "dump.rs"), "rb") as f:
+        h.update(f.read())
+    out = os.path.join(CACHE, "fixtures", h.hexdigest()[:16])
+    fj = os.path.join(out, "fixtures.json")
+    if not os.path.exists(fj):
+        ensure_driver()
+        os.makedirs(out, exist_ok=True)
+        env = dict(os.environ)
+        env.update({"LD_LIBRARY_PATH": sysroot() + "/lib", "FROST_FACTS_DIR": out})
+        r = subprocess.run([DRIVER, src, "--crate-type", "lib", "--crate-name", "fixtures", "--edition", "2021",
+                            "-Zmir-opt-level=0", "-Awarnings", "-Coverflow-checks=on", "-Cdebug-assertions=on",
+                            "--emit=metadata", "-o", os.path.join(out, "libfixtures.rmeta")],
+                           env=env, capture_output=True, text=True)
+        if r.returncode != 0 or not os.path.exists(fj):
+            raise FactError("fixture crate failed to compile:\n" + r.stderr[-2000:])
+    with open(fj) as f:
+        raw = f.read().replace("crate::", "fixtures::")
+    return {"fixtures": json.loads(raw)}
